@@ -307,6 +307,17 @@ def report(ctx, pid, fails, idx, drv, jexe, tag, do_shrink=True):
         seen[sig] = 1
         rec = idx.get((f[0], f[1], int(f[2])))
         text = rec.text if rec else b""
+        if "timeout" in sig and rec is not None and rec.kind:
+            # a watchdog hit in the parallel run may be load: repeat alone with a 60 s watchdog
+            try:
+                tr = read_text_one(drv, text, rec.kind, rec.chk, rec.bu, "confirm", timeout_ms=60000)
+                fl, _, _, _ = parse_judge(run_judge(jexe, tr))
+                if not any(g[5] == sig for g in fl):
+                    log("[ascii] watchdog hit not confirmed in isolation: %s" % sig)
+                    del seen[sig]
+                    continue
+            except Exception:
+                pass
         info = "not attempted"
         if do_shrink and rec is not None and rec.kind and f[1] != "-":
             try:
